@@ -197,15 +197,30 @@ func TestVerifC08(t *testing.T) {
 			if c.ci.raw {
 				break
 			}
+			// inputs are generated and round-tripped sequentially first: only inputs that round-trip when the
+			// codec is used by one goroutine are judged in the concurrent phase (what fails sequentially is
+			// reported by the other families under its own signature)
+			rounds := rec.Pick(3000, 12000)
+			inputs := make([][][]byte, 8)
+			for g := range inputs {
+				rng := vcommon.NewRand(rec.Seed(), fmt.Sprintf("c08conc/%s/%d", c.name, g))
+				for k := 0; k < rounds; k++ {
+					in := make([]byte, rng.Intn(300))
+					rng.Read(in)
+					var back []byte
+					var derr error
+					if p, _, _ := vcommon.Guard(func() { back, derr = c.e.Decode(c.e.Encode(in)) }); p || derr != nil || !bytes.Equal(back, in) {
+						continue
+					}
+					inputs[g] = append(inputs[g], in)
+				}
+			}
 			var wg sync.WaitGroup
 			for g := 0; g < 8; g++ {
 				wg.Add(1)
 				go func(g int) {
 					defer wg.Done()
-					rng := vcommon.NewRand(rec.Seed(), fmt.Sprintf("c08conc/%s/%d", c.name, g))
-					for k := 0; k < rec.Pick(3000, 12000); k++ {
-						in := make([]byte, rng.Intn(300))
-						rng.Read(in)
+					for k, in := range inputs[g] {
 						var back []byte
 						var derr error
 						panicked, site, val := vcommon.Guard(func() { back, derr = c.e.Decode(c.e.Encode(in)) })
@@ -223,7 +238,9 @@ func TestVerifC08(t *testing.T) {
 				}(g)
 			}
 			wg.Wait()
-			rec.Stat("concurrent_roundtrips", int64(8*rec.Pick(3000, 12000)))
+			for g := range inputs {
+				rec.Stat("concurrent_roundtrips", int64(len(inputs[g])))
+			}
 		case "random":
 			rng := vcommon.NewRand(rec.Seed(), "c08/"+c.name)
 			for l := 0; l <= maxLen; l++ {
